@@ -3,29 +3,42 @@ import json, os, sys, time
 import vlib
 from vlib import Report, SplitMix
 
-MAX_REPORTED = 5
+MAX_REPORTED = 12
 
 
 class Interactive:
     """Line-at-a-time access to the harness (used by generators that need the implementation's
-    own outputs, e.g. the bytes of an encoded frame, to build the next operation)."""
+    own outputs, e.g. the bytes of an encoded frame, to build the next operation). A hang or
+    abort of the implementation kills the process; the next operation starts a fresh one."""
     def __init__(self, mode, exe=None):
+        self.mode = mode; self.exe = exe or vlib.UH
+        self.p = None
+        self.start()
+    def start(self):
         import subprocess
-        self.p = subprocess.Popen([exe or vlib.UH, mode, "--interactive"], stdin=subprocess.PIPE, stdout=subprocess.PIPE,
-                                  env=vlib.ENV, text=True, bufsize=1)
-    def op(self, line, timeout=60):
+        self.p = subprocess.Popen([self.exe, self.mode, "--interactive"], stdin=subprocess.PIPE, stdout=subprocess.PIPE,
+                                  stderr=subprocess.DEVNULL, env=vlib.ENV, text=True, bufsize=1)
+    def op(self, line, timeout=30):
         import select
-        self.p.stdin.write(line + "\n"); self.p.stdin.flush()
-        # a hang of the implementation must not hang the generator
+        if self.p is None or self.p.poll() is not None:
+            self.start()
+        try:
+            self.p.stdin.write(line + "\n"); self.p.stdin.flush()
+        except (BrokenPipeError, OSError):
+            self.p.kill(); self.p = None
+            return "abort"
         r, _, _ = select.select([self.p.stdout], [], [], timeout)
         if not r:
-            self.p.kill()
+            self.p.kill(); self.p.wait(); self.p = None
             return "hang"
         out = self.p.stdout.readline()
         if out == "":
+            self.p.wait(); self.p = None
             return "abort"
         return out.rstrip("\n")
     def close(self):
+        if self.p is None:
+            return
         try:
             self.p.stdin.close(); self.p.wait(timeout=5)
         except Exception:
